@@ -5,5 +5,5 @@ CONSTANTS
   SampleMod = 1
   SampleSeed = 0
 VIEW view
-INVARIANTS TypeOK UniqueOwner Precedence OwnSettingsOnlyWhenOptedOut ResolvesToOwnerOrNone
+INVARIANTS TypeOK UniqueOwner Precedence OwnSettingsOnlyWhenOptedOut ResolvesToOwnerOrNone LooseFollowsPrecedence
 PROPERTY RejectedLeavesUnchanged
